@@ -10,16 +10,16 @@ Local Open Scope N_scope.
    field, nested updates would explode.  cbn unfolds them lazily under a projection. *)
 Ltac prj :=
   cbn [threads vms classes tpool vpool cpool chain scripts elems mtime dirty scaled lastclk startclk clock
-       cur depth refs nextid nextscript stack out tlog vlog clog ub oof
+       cur depth refs gvars nextid nextscript stack out tlog vlog clog ub oof
        set_threads set_vms set_classes set_tpool set_vpool set_cpool set_chain set_scripts set_elems set_mtime
-       set_dirty set_scaled set_lastclk set_startclk set_clock set_cur set_depth set_refs set_nextid set_nextscript set_stack
+       set_dirty set_scaled set_lastclk set_startclk set_clock set_cur set_depth set_refs set_gvars set_nextid set_nextscript set_stack
        set_out set_tlog set_vlog set_clog set_ub set_oof
        set_tvm set_tstate set_waitfor set_notify set_vclass set_vstate set_vcont set_cthreads
        flag_ub flag_oof free_vm free_class
        t_vm t_state t_waitfor t_notify v_class v_state v_cont c_script c_threads
-       ath acl ascripts aelems amtime adirty ascaled alastclk astartclk aclock acur adepth arefs anextid anextscript astack aout aoof
+       ath acl ascripts aelems amtime adirty ascaled alastclk astartclk aclock acur adepth arefs agvars anextid anextscript astack aout aoof
        set_ath set_acl set_ascripts set_aelems set_amtime set_adirty set_ascaled set_alastclk set_astartclk
-       set_aclock set_acur set_adepth set_arefs set_anextid set_anextscript set_astack set_aout set_aoof
+       set_aclock set_acur set_adepth set_arefs set_agvars set_anextid set_anextscript set_astack set_aout set_aoof
        a_cls a_vs a_ts a_cont a_wait a_par fst snd] in *.
 Ltac unf := unfold th, vmof, clsof in *.
 Ltac ss := repeat (progress (unf; prj)).
@@ -80,7 +80,7 @@ Definition acurs (s : st) : option N :=
   end.
 Definition alpha (s : st) : abs :=
   mkAbs (aths s) (acls s) (scripts s) (elems s) (mtime s) (dirty s) (scaled s) (lastclk s) (startclk s)
-        (clock s) (acurs s) (depth s) (refs s) (nextid s) (nextscript s) (stack s) (out s) (oof s).
+        (clock s) (acurs s) (depth s) (refs s) (gvars s) (nextid s) (nextscript s) (stack s) (out s) (oof s).
 
 Definition healthy (s : st) (t : N) : Prop := In t (tpool s) /\ t_vm (th s t) = true.
 
@@ -151,7 +151,7 @@ Proof. unfold aths. rewrite map_map. cbn [abs_thread fst]. apply map_id. Qed.
 Lemma abs_eq a b :
   ath a = ath b -> acl a = acl b -> ascripts a = ascripts b -> aelems a = aelems b -> amtime a = amtime b ->
   adirty a = adirty b -> ascaled a = ascaled b -> alastclk a = alastclk b -> astartclk a = astartclk b ->
-  aclock a = aclock b -> acur a = acur b -> adepth a = adepth b -> arefs a = arefs b -> anextid a = anextid b -> anextscript a = anextscript b ->
+  aclock a = aclock b -> acur a = acur b -> adepth a = adepth b -> arefs a = arefs b -> agvars a = agvars b -> anextid a = anextid b -> anextscript a = anextscript b ->
   astack a = astack b -> aout a = aout b -> aoof a = aoof b -> a = b.
 Proof. destruct a, b. cbn. intros. subst. reflexivity. Qed.
 Ltac triv := try (match goal with |- ?x = ?x => reflexivity end).
